@@ -22,7 +22,7 @@ DOMAINS = {
 }
 LABELSETS = {
     "int": [0, 1, 2, 3], "negint": [-3, 7, 10, 25], "float": [0.5, 1.5, 2.5, 4.0], "bool": [False, True],
-    "str": ["a", "b", "c", "d"], "objstr": ["a", "b", "c", "d"],
+    "str": ["a", "b", "c", "d"], "objstr": ["a", "b", "c", "d"], "strlen": ["no", "yes", "maybe", "x"],
 }
 
 
